@@ -198,5 +198,30 @@ def run(ctx):
 
 
 def replay(ctx, doc):
-    r = run(ctx)
-    return "; ".join(v.what for v in r.violations.values() if v.site == doc.get("edit_class"))[:600] or None
+    """Re-evaluates only the state named by the replay file (same edit sequence on the current tree)."""
+    impl.setup_paths()
+    base = docs.committed()
+    schema, rooted = schemawalk.load_schema()
+    _G["validator"] = schemawalk.validator(rooted)
+    _G["thorough"] = True
+    states = evo.depth1(base, True) + evo.depth2_core(base)
+    match = [st for st in states if st[0] == doc.get("edits")]
+    if not match:
+        return None
+    _G["states"] = match[:1]
+    work = scratch("lspverif-c06replay-")
+    try:
+        _G["base_path"] = docs.write(base, os.path.join(work, "base.json"))
+        _G["base_names"] = "-"
+        r = _state_task(0)
+    finally:
+        rm(work)
+    known = load_known()
+    left = []
+    for v in r["violations"]:
+        inner = _Inner(v["checker"], v["sig"], v["what"], v.get("input"))
+        if v["checker"] != "C06" and match_known(inner, known) is not None:
+            continue
+        if doc.get("checker_signature") in (None, v["sig"]) or v["checker"] == doc.get("checker"):
+            left.append(v["what"])
+    return "; ".join(left)[:600] or None
